@@ -85,6 +85,8 @@ def rand_params(rng):
     N = int(rng.choice([2, 4, 6, 8, 10, 16, 24, 32, 50, 64, 128]))
     wvl = float(10 ** rng.uniform(np.log10(0.3e-6), np.log10(20e-6)))
     d1 = float(10 ** rng.uniform(-5, 0))
+    if rng.random() < 0.15:
+        d1 = wvl * float(10 ** rng.uniform(-1.5, 0))       # sampling finer than the wavelength: still a unitary operator
     z = float(rng.choice([-1, 1]) * 10 ** rng.uniform(-6, 6))
     mclass = rng.integers(0, 6)
     m = [1.0, 1.0 + 1e-9, 1.0 - 1e-9, float(10 ** rng.uniform(-1, 1)), float(10 ** rng.uniform(-1, 1)), 2.0][mclass]
